@@ -264,6 +264,23 @@ fn check_max_tag(ctx: &Ctx, u: &[&V]) -> Stats {
     }).reduce(Stats::default, Stats::merge)
 }
 
+/// one list of tags (in the given order) through find_max_version_tag: the result is a member and no member ranks above it
+fn judge_tag_list(ctx: &Ctx, texts: &[String], st: &mut Stats) {
+    st.inc("long_tag_lists");
+    let parsed: Vec<(String, PEP440, rp::Parsed)> = texts.iter().map(|t| (t.clone(), PEP440::from_str(t).unwrap_or_else(|e| machinery_error(&format!("list member {t}: {e}"))), rp::parse(t).unwrap())).collect();
+    let tags: Vec<(String, VersionObject)> = parsed.iter().map(|(t, z, _)| (t.clone(), VersionObject::PEP440(z.clone()))).collect();
+    let key = format!("{} tags: {} ... {}", texts.len(), texts[..texts.len().min(3)].join(" "), texts[texts.len().saturating_sub(3)..].join(" "));
+    let case = json!({"kind":"maxtag","tags":texts});
+    match catch(|| GitUtils::find_max_version_tag(&tags)) {
+        Ok(Ok(Some(t))) => match parsed.iter().find(|(x, _, _)| *x == t) {
+            None => ctx.violation("max_tag_not_a_member", key, case, format!("returned {t:?}")),
+            Some((_, _, r)) => if let Some((b, _, _)) = parsed.iter().find(|(_, _, o)| rp::cmp_c11(o, r) == Ordering::Greater) { ctx.violation("max_tag_not_maximal", key, case, format!("returned {t}, but {b} ranks above it")); },
+        },
+        Ok(other) => ctx.violation("max_tag_failed", key, case, format!("{other:?}")),
+        Err(p) => ctx.violation(&format!("panic@{}", p.file()), key, case, p.message),
+    }
+}
+
 static REJECTED: std::sync::Mutex<Vec<(String, String)>> = std::sync::Mutex::new(Vec::new());
 
 fn main() {
@@ -307,6 +324,48 @@ fn main() {
         sweep_states += u.len() as u64;
         s_pairs = s_pairs.merge(check_pairs(&ctx, &u));
     }
+    // carry universes: for every value g of the dense grid (numpool) that fits the 32-bit fields, all ordered pairs of
+    // epoch {0,1} x release {1, 1.0, 1.g, 1.g.0, 1.0.g, 2} x pre {-, a0, a<g>} x post {-, 0, g} x dev {-, g}: a comparison on a packed,
+    // truncated or summed key confuses two members at one g
+    {
+        let grid = numpool::grid_u32();
+        let per: Vec<Stats> = grid.par_iter().map(|&g| {
+            let mut texts = vec![];
+            for e in ["", "1!"] { for r in ["1", "1.0", "1.{g}", "1.{g}.0", "1.0.{g}", "2"] { for pre in ["", "a0", "a{g}"] { for post in ["", ".post0", ".post{g}"] { for dev in ["", ".dev{g}"] {
+                texts.push(format!("{e}{r}{pre}{post}{dev}").replace("{g}", &g.to_string()));
+            }}}}}
+            texts.sort(); texts.dedup();
+            let u: Vec<V> = texts.into_iter().enumerate().filter_map(|(i, t)| {
+                let r = rp::parse(&t).unwrap_or_else(|| machinery_error(&format!("model rejects {t:?}")));
+                match PEP440::from_str(&t) { Ok(z) => Some(V { z, r, text: t, vid: usize::MAX - i }), Err(e) => { REJECTED.lock().unwrap().push((t.clone(), e.to_string())); None } }
+            }).collect();
+            let mut st = check_pairs(&ctx, &u);
+            st.add("carry_universe_versions", u.len() as u64);
+            st
+        }).collect();
+        for st in per { sweep_states += st.get("carry_universe_versions"); s_pairs = s_pairs.merge(st); }
+    }
+    // long tag lists: n tags on one commit for every n in 1..=70 and around 100, 128, 256, 512, 1000, 1024: distinct lower fillers
+    // plus two top candidates that spell one release with different numbers of trailing zeros and differ in a later field, the
+    // greater one first / in the middle / last, the list in both directions
+    let s_long = {
+        let mut ns: Vec<usize> = (1..=70).collect();
+        ns.extend([99, 100, 101, 127, 128, 129, 255, 256, 257, 511, 512, 513, 999, 1000, 1001, 1023, 1024, 1025]);
+        if !ctx.quick() { ns.extend([4095, 4096, 4097, 10000]); }
+        let jobs: Vec<(usize, usize, usize)> = ns.iter().flat_map(|&n| (0..3).flat_map(move |pos| (0..5).map(move |pair| (n, pos, pair)))).collect();
+        jobs.par_iter().map(|&(n, pos, pair)| {
+            let mut st = Stats::default();
+            let (top, second) = [("9.0.post1", "9.0.0"), ("9.0", "9.0.0a1"), ("1!3.post2", "1!3.0.post1"), ("9.1", "9.0.99"), ("9.0.0+b", "9.0+a")][pair];
+            let mut l: Vec<String> = (0..n.saturating_sub(2)).map(|i| format!("0.{}.{}", i / 50, i % 50 + 1)).collect();
+            if n >= 2 { l.push(second.to_string()); }
+            let at = match pos { 0 => 0, 1 => l.len() / 2, _ => l.len() };
+            l.insert(at, top.to_string());
+            judge_tag_list(&ctx, &l, &mut st);
+            l.reverse();
+            judge_tag_list(&ctx, &l, &mut st);
+            st
+        }).reduce(Stats::default, Stats::merge)
+    };
     let tri_n = if ctx.quick() { 150 } else { 400 };
     let stride = (u.len() / tri_n).max(1);
     // stride chosen odd relative to 5 spellings so that all spellings occur
@@ -321,7 +380,7 @@ fn main() {
     let head = &u[..u.len().min(1500)];
     if check_pairs(&ctx, head).digest != check_pairs(&ctx, head).digest { machinery_error("determinism replay diverged"); }
 
-    let all = s_pairs.clone().merge(s_tri).merge(s_mt);
+    let all = s_pairs.clone().merge(s_tri).merge(s_mt).merge(s_long);
     for (t, e) in REJECTED.lock().unwrap().iter() { ctx.violation("universe_member_rejected", format!("{t:?}"), json!({"kind":"member","text":t}), format!("the real parser rejects this spelling of a valid version: {e}")); }
     let mut cov = Coverage::default();
     cov.states = (u.len() + ub.len() + ul.len() + ur.len() + up.len()) as u64 + sweep_states;
